@@ -314,3 +314,12 @@ def guard_check(func, targets, recog, kills=(), follow_exc=False, extra_cut=(), 
             if p is not None:
                 return p, hits
     return None, hits
+
+
+def resp_var(repo, f):
+    """local name bound to the Response in `resp, environ = wsgi.create(..)` (role inference)"""
+    for c in calls_to(repo, f, "gunicorn.http.wsgi.create"):
+        st = f.module.enclosing(c, ast.Assign)
+        if st is not None and isinstance(st.targets[0], ast.Tuple) and len(st.targets[0].elts) == 2 and all(isinstance(x, ast.Name) for x in st.targets[0].elts):
+            return st.targets[0].elts[0].id, st.targets[0].elts[1].id
+    raise AnalysisError("`resp, environ = wsgi.create(..)` not found in %s" % f.qualname)
